@@ -166,6 +166,12 @@ func vpC35GenForm(t *rapid.T, allowBig bool) *vpC35Form {
 			name = rapid.SampledFrom(names).Draw(t, "dupOf")
 		} else {
 			name = vpC35NameGen.Draw(t, "fname")
+			if rapid.IntRange(0, 3).Draw(t, "wideName") == 0 {
+				// characters a Content-Disposition parameter has to quote or carry verbatim; all of them
+				// survive mime/multipart's own WriteField -> ReadForm (checked below for every case)
+				name += rapid.SampledFrom([]string{"\t", "\u00a0", "\u200b", "\\", "\"", "'", ";", "%", "%22", "é", "日本", "a\tb\\\"c"}).Draw(t, "nameSpecial")
+				name += rapid.StringMatching(`[a-z]{0,3}`).Draw(t, "nameTail")
+			}
 		}
 		names = append(names, name)
 		m.fields = append(m.fields, vpC35Field{name, vpC35GenValue(t)})
